@@ -127,6 +127,22 @@ def run(ctx):
                 for n in (64, 96):
                     ctx.count('address_lookalike_signatures')
                     judge(ctx, T.SIGNATURE, head + texty(n - 22))
+    # a value of one kind offered where another kind is expected is refused - the first time and every time after
+    kh_cls, addr_cls = D.mk_type(T.KEY_HASH), D.mk_type(T.ADDRESS)
+    for d in ds[:8] + [G.rbytes(rng, 20) for _ in range(ctx.pick(6, 200) // ctx.nshards + 1)]:
+        for a22 in [bytes([k]) + d + b'\x00' for k in (1, 2, 3)]:
+            b58 = P.addr22_to_b58(a22)
+            for lit, how in (({'string': b58}, 'string'), ({'bytes': a22.hex()}, '22-bytes')):
+                for attempt in (1, 2, 3):
+                    ctx.count('cross_kind_reads')
+                    ctx.case(('cross', b58, how, attempt), nontrivial=True)
+                    try:
+                        o = kh_cls.from_micheline_value(lit)
+                    except Exception:
+                        continue
+                    ctx.violation('C10|kind-confusion|key_hash|%s-read-as-key-hash|attempt-%s' % (b58[:3], 'first' if attempt == 1 else 'repeated'),
+                                  '%r accepted as key_hash %r on attempt %d' % (lit, getattr(o, 'value', o), attempt), {'type_expr': {'prim': 'key_hash'}, 'literal': lit, 'negative': True})
+                    break
     # tx rollup l2 address type: intrinsic round trip only
     for d in ds[:4]:
         try:
@@ -145,6 +161,15 @@ def run(ctx):
 
 
 def replay(ctx, case):
+    if case.get('negative'):
+        cls = D.mk_type(T.from_micheline(case['type_expr']))
+        for attempt in (1, 2, 3):
+            try:
+                cls.from_micheline_value(case['literal'])
+            except Exception:
+                continue
+            return ctx.violation('C10|kind-confusion|replay', 'accepted on attempt %d' % attempt, case)
+        return
     t = T.from_micheline(case['type_expr'])
     if t[0] == 'tx_rollup_l2_address':
         return
